@@ -23,7 +23,8 @@ DECIDES = ('For several depths/widths (power-of-two depth, power-of-two ring, th
            'pointers change on nothing else; a discard copies committed -> current and beats a simultaneous advance; '
            '(e) a simultaneous commit and discard on one side leaves the pointers ring-ordered; (f) the address given '
            'to the synchronous read port is the value the current read pointer has in the next cycle (hold, advance, '
-           'discard), and read_data is the port data; built with domain="usb" every register of the FIFO is in one clock domain. ')
+           'discard), and read_data is the port data; built with domain="usb" every register of the FIFO is in one clock domain. '
+           '(g) address, data and enable of both memory ports are combinational (a registered port input shifts the access by a cycle against the pointers and flags). ')
 NOT_DECIDED = ('queue equivalence over unbounded histories (the one-step relation is decided only on the listed depths '
                'and, for large depths, on corner states); whether a write and a commit in the same cycle commit that '
                'write (either is accepted); the domain renaming and the memory primitive itself.')
